@@ -89,9 +89,11 @@ def ioctl_word(rnd):
 
 
 class Prober:
-    def __init__(self, rnd):
+    def __init__(self, rnd, reraise=True):
         self.rnd = rnd
+        self.reraise = reraise    # False: a rendering that raises is recorded in self.raised and reads as None
         self.w = World(rnd)
+        self.raised = []          # (decoder, START words, END words, exception): in-domain records must render
 
     def distinct_words(self, name, which):
         """in-domain words, pairwise distinct (also in their low 32 bits) where the domain allows"""
@@ -153,11 +155,18 @@ class Prober:
         stream.append(w.sys(name, 2, 1, tuple(E)))
         p = new_parser(w)
         out = None
-        for k, a in enumerate(stream, 1):
-            r = p.feed(w.concrete(a, k))
-            if r is not None and k == len(stream):
-                out = r
-        return None if out is None else str(out)
+        try:
+            for k, a in enumerate(stream, 1):
+                r = p.feed(w.concrete(a, k))
+                if r is not None and k == len(stream):
+                    out = r
+            return None if out is None else str(out)
+        except Exception as ex:
+            if self.reraise:
+                raise
+            if len(self.raised) < 50:
+                self.raised.append((name, list(S), list(E), repr(ex)))
+            return None
 
 
 def label(pr, name, S, E, paths, nalt=2):
@@ -241,3 +250,14 @@ def label(pr, name, S, E, paths, nalt=2):
     return {'name': name, 'shaped': True, 'fname': fname, 'unstable': unstable or history_dep, 'params': params,
             'history_dep': history_dep, 'history': [h[0] for h in hist] if history_dep else [], 'text_after_history': t_hist if history_dep else '',
             'res': {'ds': sorted(res_ds), 'de': sorted(res_de), 'dl': sorted(res_dl)}, 'text': base}
+
+
+def report_raised(ctx, pr):
+    """renderings of in-domain records that raised: reported under the calling property (no text = no conforming text)"""
+    seen = set()
+    for name, S, E, exn in pr.raised:
+        if name in seen:
+            continue
+        seen.add(name)
+        ctx.violation('%s/raised@%s' % (ctx.prop, name), '%s with START %s END %s raised %s' % (name, [hex(x) for x in S], [hex(x) for x in E], exn),
+                      {'kind': 'render', 'name': name, 'start': [hex(x) for x in S], 'end': [hex(x) for x in E]})
